@@ -1,4 +1,10 @@
 import PyYetiVerif.Props.C01
+import PyYetiVerif.Props.C01Part
+import PyYetiVerif.Props.C01Static
+import PyYetiVerif.Props.C01Unique
+import PyYetiVerif.Props.C01Coupled
+import PyYetiVerif.Props.C01Delconj
+import PyYetiVerif.Props.C01Exp
 #print axioms PyYetiVerif.C01.su_solves_ode_under
 #print axioms PyYetiVerif.C01.su_solves_ode_over
 #print axioms PyYetiVerif.C01.su_solves_ode_crit
@@ -18,3 +24,26 @@ import PyYetiVerif.Props.C01
 #print axioms PyYetiVerif.C01.cplx_small_exact
 #print axioms PyYetiVerif.C01.partition_ok
 #print axioms PyYetiVerif.C01.rb_order_agrees
+#print axioms PyYetiVerif.C01.el_order_agrees
+#print axioms PyYetiVerif.C01.partition_auto_ok
+#print axioms PyYetiVerif.C01.small_unc_iff
+#print axioms PyYetiVerif.C01.small_coupled_iff
+#print axioms PyYetiVerif.C01.mkSlice_spec
+#print axioms PyYetiVerif.C01.slicesFlag_iff
+#print axioms PyYetiVerif.C01.rf_static_rows
+#print axioms PyYetiVerif.C01.static_ic_ok
+#print axioms PyYetiVerif.C01.explicit_ic
+#print axioms PyYetiVerif.C01.zero_ic
+#print axioms PyYetiVerif.C01.isSol_unique
+#print axioms PyYetiVerif.C01.su_solves_ode_unique
+#print axioms PyYetiVerif.C01.run_exact_unique
+#print axioms PyYetiVerif.C01.decoupled_recovers
+#print axioms PyYetiVerif.C01.coupled_step_exact
+#print axioms PyYetiVerif.C01.coupled_run_exact
+#print axioms PyYetiVerif.C01.sol2R_exists
+#print axioms PyYetiVerif.C01.delconj_recovers
+#print axioms PyYetiVerif.C01.coupled_run_exact_real
+#print axioms PyYetiVerif.C01.oscKept_spec
+#print axioms PyYetiVerif.C01.exp2_step_exact
+#print axioms PyYetiVerif.C01.exp2_run_exact
+#print axioms PyYetiVerif.C01.freeA_spec
